@@ -11,4 +11,4 @@ from props import recover_common as rc
 
 
 def run(ctx):
-    rc.run_check(ctx, "C10", plans_quick=12, plans_thorough=90, frm=5000)
+    rc.run_check(ctx, "C10", plans_quick=12, plans_thorough=90, frm=5004)
